@@ -133,6 +133,12 @@ def feat_heredoc_op(line):
     return "<<" in line
 
 
+def feat_heredoc_in_parens(line):
+    """a here-document operator inside `$(` / `<(` / `>(` / `(`"""
+    i = line.find("(")
+    return i >= 0 and "<<" in line[i:]
+
+
 def feat_backquote_escape(line):
     """an escaped backquote or backslash inside a backquoted substitution (the word parser unescapes it,
     so offsets inside the nested command no longer map onto the line)"""
@@ -312,7 +318,13 @@ def classify(ctx, t, state):
             state["viol"](ctx, "the highlighter never returns (watchdog %d ms, confirmed)" % WD_CONFIRM, case, "property")
         return
     if t.tree.startswith("TREEPANIC"):
-        state["viol"](ctx, "tokenizer / word parser panicked: " + t.tree, case, "property")
+        # the tokenizer / word parser itself panics: so does highlight_command (same call)
+        c0 = min(t.brush) if t.brush else 0
+        case = {"line": line, "cursor": c0, "brush": t.brush.get(c0), "tree": unesc(t.tree[4:])}
+        if feat_heredoc_in_parens(line) and "Option::unwrap" in unesc(t.tree):
+            known(ctx, "heredoc_in_substitution_tokenizer_panic", "the highlighter panics (tokenizer: unwrap on None)", case)
+        else:
+            state["viol"](ctx, "the highlighter panics in the tokenizer / word parser: " + unesc(t.tree[4:]), case, "property")
         return
     if t.wf is None:
         ctx.broken.append("Lean driver could not read the tree of %r: %s" % (line, getattr(t, "model_err", "?")))
